@@ -389,7 +389,8 @@ func expandPathItem(pathItem *PathItem, resolver *schemaLoader, basePath string)
 	}
 
 	parentRefs := make([]string, 0, smallPrealloc)
-	if err := resolver.deref(pathItem, parentRefs, basePath); resolver.shouldStopOnError(err) {
+	resolver, basePath, err := resolver.deref(pathItem, parentRefs, basePath)
+	if resolver.shouldStopOnError(err) {
 		return err
 	}
 
@@ -551,7 +552,7 @@ func expandParameterOrResponse(input interface{}, resolver *schemaLoader, basePa
 	parentRefs := make([]string, 0, smallPrealloc)
 	if ref != nil {
 		// dereference this $ref
-		if err = resolver.deref(input, parentRefs, basePath); resolver.shouldStopOnError(err) {
+		if resolver, basePath, err = resolver.deref(input, parentRefs, basePath); resolver.shouldStopOnError(err) {
 			return err
 		}
 
